@@ -494,8 +494,8 @@ def _far_case(draw):
 def subs(tier: str):
     q = tier == "quick"
     return [
-        Sub("sequences", check, "hypothesis", strategy=lambda: _case(5, 6 if q else 10), examples=40 if q else 3000),
+        Sub("sequences", check, "hypothesis", strategy=lambda: _case(5, 6 if q else 10), examples=100 if q else 3000),
         Sub("datasets-of-100-and-more", check_many, "hypothesis", strategy=_many_case, examples=2 if q else 30),
         Sub("far-apart-endpoints-int8", check, "hypothesis", strategy=_far_case, examples=2 if q else 20),
-        Sub("config-driven", check_config_driven, "hypothesis", strategy=_config_case, examples=20 if q else 1500),
+        Sub("config-driven", check_config_driven, "hypothesis", strategy=_config_case, examples=40 if q else 1500),
     ]
